@@ -3,12 +3,15 @@
 
    STATUS (kept visible, see DESIGN.md C03): proved here are (i) what each of the 2^E
    entries holds in terms of the model's [loop_number], [is_mass_momentum_spanning] and
-   weight sum, for every scalar type, and the global fields; (ii) in
-   Properties/C03 section "components" (added when Proofs/Components.v lands) that the
-   model's [components] is a true component system, from which the Euler-characteristic
-   reading of [loop_number] follows. *)
-From Coq Require Import ZArith NArith List QArith Qcanon.
-From MT Require Import Model.Scalar Model.Graph Model.Table Proofs.Instances Proofs.TableProofs.
+   weight sum, for every scalar type, and the global fields; (ii) [C03_components]:
+   the model's [components] of every edge subset is its true component system -- a
+   partition of the subset into non-empty classes, two edges in one class exactly when
+   they are joined by a chain of edges of the subset sharing vertices -- so that
+   [loop_number] (sum over classes of 1 + edges - vertices) and the spanning flag (one
+   class touches every external vertex, all massive edges present) read as the property
+   states them; (iii) [C03_euler]: L(s) + |V(s)| = |s| + number of components. *)
+From Coq Require Import ZArith NArith List QArith Qcanon Permutation.
+From MT Require Import Model.Scalar Model.Graph Model.Table Proofs.Instances Proofs.TableProofs Proofs.Components Proofs.Euler.
 Import ListNotations.
 Local Open Scope nat_scope.
 
@@ -54,11 +57,33 @@ Proof.
   exact (build_entries SC gam g D t Hsize Hb).
 Qed.
 
+(* the component system of every subset is the true one *)
+Theorem C03_components : forall s : sid,
+  let sub := sub_edges (g_edges g) s in
+  let cs := components sub in
+  Permutation (concat cs) sub /\
+  (forall c, In c cs -> c <> []) /\
+  (forall x y, In x sub -> In y sub -> (conn sub x y <-> same_comp cs x y)).
+Proof.
+  exact (fun s => components_are_classes (sub_edges (g_edges g) s) (sub_edges_NoDup (g_edges g) s)).
+Qed.
+
+(* Euler's formula for the whole subset: L(s) = |s| - |V(s)| + (number of components),
+   written without subtraction; [verts] lists the distinct vertices touched by the subset *)
+Theorem C03_euler : forall s : sid,
+  let sub := sub_edges (g_edges g) s in
+  loop_number sub + length (verts sub) = length sub + length (components sub).
+Proof.
+  exact (fun s => loop_number_euler (sub_edges (g_edges g) s)).
+Qed.
+
 End C03.
 
-Check @C03_globals. Check @C03_entries.
+Check @C03_globals. Check @C03_entries. Check @C03_components. Check @C03_euler.
 Print Assumptions C03_globals.
 Print Assumptions C03_entries.
+Print Assumptions C03_components.
+Print Assumptions C03_euler.
 
 (* non-vacuity: sunrise with one massive edge over Qc, D = 3; subset {0,1} has one loop,
    is not spanning (misses the massive edge 2), omega = 1 + 1 - 3/2 = 1/2 *)
